@@ -108,14 +108,12 @@ func newYarnSpinnerCommand(command any) (YarnSpinnerCommand, error) {
 				errChan <- fmt.Errorf("command returned a nil chan")
 				return errChan
 			}
-			switch returnChan := outputParameters[0].Interface().(type) {
-			case <-chan error:
-				return returnChan
-			case chan error:
-				return returnChan
+			returnChan, ok := outputParameters[0].Convert(typeReceiveErrChan).Interface().(<-chan error)
+			if !ok {
+				errChan <- fmt.Errorf("command did not return a chan error like expected")
+				return errChan
 			}
-			errChan <- fmt.Errorf("command did not return a chan error like expected")
-			return errChan
+			return returnChan
 		}
 
 		go func() {
@@ -162,9 +160,9 @@ func checkCommandOutputParameters(commandType reflect.Type) (returnSignature, er
 
 var _ commandCaller = (*commandStorer)(nil)
 
+var typeReceiveErrChan = reflect.TypeOf((<-chan error)(nil))
+
+// isTypeErrChan reports whether errors can be received from a channel of type t.
 func isTypeErrChan(t reflect.Type) bool {
-	if t.Kind() != reflect.Chan {
-		return false
-	}
-	return t.Elem().ConvertibleTo(typeError)
+	return t.Kind() == reflect.Chan && t.ConvertibleTo(typeReceiveErrChan)
 }
